@@ -334,4 +334,46 @@ theorem parseCellH_render (nf : Nat) (rows : List BoxRow) (hg : ∀ r ∈ rows, 
   rw [parseFabs_render _ rows hg (7 + rows.length) (fun k r hk => line_fab nf rows k r hk)]
   simp
 
+/-- the whole `Cell_H` file: the rendered part followed by further lines (the min/max tables) -/
+def renderCellHExt (nf : Nat) (rows : List BoxRow) (extra : List Bytes) : Bytes :=
+  joinSep NL (renderLines nf rows ++ extra)
+
+theorem renderLines_length (nf : Nat) (rows : List BoxRow) : (renderLines nf rows).length = 8 + 2 * rows.length := by
+  unfold renderLines; simp; omega
+
+/-- **`parse ∘ render = id` for the level header followed by any further lines** (the reader only
+    looks at the lines up to the FabOnDisk table) -/
+theorem parseCellH_render_ext (nf : Nat) (rows : List BoxRow) (extra : List Bytes) (hg : ∀ r ∈ rows, r.Good)
+    (hx : ∀ l ∈ extra, NoByte NL l) :
+    parseCellH (renderCellHExt nf rows extra) nf = .ok (rows.map BoxRow.entry) := by
+  unfold parseCellH renderCellHExt
+  rw [splitOn_joinSep NL (renderLines nf rows ++ extra) (by unfold renderLines; simp)
+    (fun l hl => by
+      rcases List.mem_append.mp hl with h | h
+      · exact noNL_lines nf rows hg l h
+      · exact hx l h)]
+  have hlen := renderLines_length nf rows
+  have ext : ∀ i, i < 8 + 2 * rows.length →
+      (renderLines nf rows ++ extra).getD i [] = (renderLines nf rows).getD i [] :=
+    fun i hi => getD_append_left' _ _ _ _ (by omega)
+  have h2 : (renderLines nf rows ++ extra).getD 2 [] = natBytes nf := by rw [ext 2 (by omega)]; rfl
+  have h4 : (renderLines nf rows ++ extra).getD 4 [] = countLine rows.length := by rw [ext 4 (by omega)]; rfl
+  simp only [h2, h4, pyInt_natBytes, head_countLine, remove40_count, Int.toNat_natCast]
+  rw [parseBoxes_render _ rows hg 5 (fun k r hk => by
+    have hlt : k < rows.length := by
+      rcases Nat.lt_or_ge k rows.length with h | h
+      · exact h
+      · rw [List.getElem?_eq_none h] at hk; cases hk
+    rw [ext (5 + k) (by omega)]; exact line_box nf rows k r hk)]
+  have h6 : (renderLines nf rows ++ extra).getD (6 + rows.length) [] = natBytes rows.length := by
+    rw [ext _ (by omega)]; exact line_count2 nf rows
+  simp only [h6, pyInt_natBytes]
+  rw [parseFabs_render _ rows hg (7 + rows.length) (fun k r hk => by
+    have hlt : k < rows.length := by
+      rcases Nat.lt_or_ge k rows.length with h | h
+      · exact h
+      · rw [List.getElem?_eq_none h] at hk; cases hk
+    rw [ext (7 + rows.length + k) (by omega)]; exact line_fab nf rows k r hk)]
+  simp
+
 end Taste
